@@ -80,6 +80,10 @@ func init() {
 	}
 	// Handles.tla: handles on one regular file
 	modules["handles"] = func(kind string, o *Opts) engine.Adapter {
+		if strings.HasPrefix(kind, "kvfault=") {
+			return &fsad.HKVFaultAdapter{Cfg: fsad.HConfig{AdapterName: kind, PropIO: o.attr("io", "-"), PropClosed: o.attr("closed", "-")},
+				Store: strings.TrimPrefix(kind, "kvfault="), Prop: o.attr("fault", "C14")}
+		}
 		cfg := fsad.HConfig{AdapterName: kind, PropIO: o.attr("io", "C02"), PropClosed: o.attr("closed", "C17"), MkFS: mkfs(kind)}
 		if kind == "osref" {
 			cfg.Reference = true
